@@ -163,21 +163,33 @@ func c13Catalogue(maxChain int) []option {
 		owners = append(owners, owner{label, f})
 	}
 	hdrNames := []string{"X-H0", "x-rate-limit", "ETag"}
-	add("sharedParam", func(inst int, typ string) ([]string, []gen.Plant) {
-		p := []string{"parameters", "q" + strconv.Itoa(inst)}
-		return p, []gen.Plant{gen.P(gen.J{"name": "q", "in": "query", "type": typ}, p...)}
-	})
-	add("pathParam", func(inst int, typ string) ([]string, []gen.Plant) {
-		p := []string{"paths", pt, "parameters", strconv.Itoa(inst)}
-		return p, []gen.Plant{gen.P(gen.J{"name": "q" + strconv.Itoa(inst), "in": "query", "type": typ}, p...)}
-	})
+	// parameter locations: every non-body location on shared, path-level and GET parameters; one location per other method
+	locs := []string{"query", "path", "header", "formData"}
+	for _, in := range locs {
+		in := in
+		add("sharedParam."+in, func(inst int, typ string) ([]string, []gen.Plant) {
+			p := []string{"parameters", "q" + in + strconv.Itoa(inst)}
+			return p, []gen.Plant{gen.P(gen.J{"name": "q", "in": in, "type": typ}, p...)}
+		})
+		add("pathParam."+in, func(inst int, typ string) ([]string, []gen.Plant) {
+			p := []string{"paths", pt, "parameters", strconv.Itoa(inst)}
+			return p, []gen.Plant{gen.P(gen.J{"name": "q" + strconv.Itoa(inst), "in": in, "type": typ}, p...)}
+		})
+	}
 	for mi, m := range oracle.Methods7 {
 		m := m
-		add("opParam."+m, func(inst int, typ string) ([]string, []gen.Plant) {
-			p := []string{"paths", pt, m, "parameters", strconv.Itoa(inst)}
-			return p, []gen.Plant{gen.P(gen.J{"name": "q" + strconv.Itoa(inst), "in": "query", "type": typ}, p...),
-				gen.P(gen.J{"description": "ok"}, "paths", pt, m, "responses", "200")}
-		})
+		ins := []string{locs[mi%4]}
+		if m == "get" {
+			ins = locs
+		}
+		for _, in := range ins {
+			in := in
+			add("opParam."+m+"."+in, func(inst int, typ string) ([]string, []gen.Plant) {
+				p := []string{"paths", pt, m, "parameters", strconv.Itoa(inst)}
+				return p, []gen.Plant{gen.P(gen.J{"name": "q" + strconv.Itoa(inst), "in": in, "type": typ}, p...),
+					gen.P(gen.J{"description": "ok"}, "paths", pt, m, "responses", "200")}
+			})
+		}
 		// header names: canonical and non-canonical spellings (all three under get, one per other method)
 		names := []string{hdrNames[mi%3]}
 		if m == "get" {
